@@ -181,11 +181,9 @@ def isCTL (c : UInt8) : Bool := c < 32 || c == 127
 def validFieldValue (v : Bytes) : Bool := v.all fun c => !isCTL c || c == 32 || c == 9
 def validFieldName (n : Bytes) : Bool := !n.isEmpty && n.all isTokenByte
 
-def strBytes (s : String) : Bytes := s.toUTF8.toList
-
 def invalidH3Names : List Bytes :=
-  [strBytes "connection", strBytes "keep-alive", strBytes "proxy-connection",
-   strBytes "transfer-encoding", strBytes "upgrade"]
+  [[99, 111, 110, 110, 101, 99, 116, 105, 111, 110] /- "connection" -/, [107, 101, 101, 112, 45, 97, 108, 105, 118, 101] /- "keep-alive" -/, [112, 114, 111, 120, 121, 45, 99, 111, 110, 110, 101, 99, 116, 105, 111, 110] /- "proxy-connection" -/,
+   [116, 114, 97, 110, 115, 102, 101, 114, 45, 101, 110, 99, 111, 100, 105, 110, 103] /- "transfer-encoding" -/, [117, 112, 103, 114, 97, 100, 101] /- "upgrade" -/]
 
 def natOfDigits : Bytes → Option Nat
   | [] => none
@@ -206,12 +204,12 @@ def h3ParseHead (fs : Fields) : Option H3Head :=
       else if !validFieldValue value then none
       else if isPseudo name then
         if sawRegular then none
-        else if name == strBytes ":status" then go rest sawRegular (some value) cl acc
+        else if name == [58, 115, 116, 97, 116, 117, 115] /- ":status" -/ then go rest sawRegular (some value) cl acc
         else none
       else if !validFieldName name then none
       else if invalidH3Names.contains name then none
-      else if name == strBytes "te" ∧ value != strBytes "trailers" then none
-      else if name == strBytes "content-length" then
+      else if name == [116, 101] /- "te" -/ ∧ value != [116, 114, 97, 105, 108, 101, 114, 115] /- "trailers" -/ then none
+      else if name == [99, 111, 110, 116, 101, 110, 116, 45, 108, 101, 110, 103, 116, 104] /- "content-length" -/ then
         match cl with
         | none => go rest true status (some value) acc
         | some c => if c == value then go rest true status cl acc else none
@@ -229,7 +227,7 @@ def h3ParseHead (fs : Fields) : Option H3Head :=
       match parseStatus st with
       | none => none
       | some code =>
-        let trKey := strBytes "Trailer"
+        let trKey := [84, 114, 97, 105, 108, 101, 114] /- "Trailer" -/
         let announced := (fields.filter (·.1 == trKey)).map (·.2)
         some { status := code, fields := fields.filter (·.1 != trKey), contentLength := cl,
                trailerKeys := announced }
